@@ -38,6 +38,7 @@ fixed(['C15', 'C13'], '309920a', 'std::stoi/stod/stoul exceptions escaped from l
 fixed(['C15', 'C13'], 'deb3b05', 'std::stod exception escaped from parseSettingsString() for real parameters')
 fixed(['C15'], '1d863e0', 'settings parsers accepted any non-numeric text as the boolean value false')
 fixed(['C15'], 'e1b81b2', 'settings parsers accepted any uint parameter name starting with random_seed')
+fixed(['C15'], '9c5c7ca', 'setSettings() stored the new settings before calling the setters: with init=false nothing was applied, and only-real -> auto sync mode segfaulted')
 fixed(['C15'], 'dc35f91', 'leastsq_maxrounds / leastsq_acrcy were applied only if the least squares scaler was currently selected')
 
 # ------------------------------------------------------------------ open findings
